@@ -232,7 +232,9 @@ def _parse_unauthorized(content: bytes) -> AuthenticationError:
 
     """
     payload: object = None
-    with contextlib.suppress(ValueError):
+    # RecursionError: json.loads recurses per nesting level, so a body of a few
+    # thousand "[" is not a ValueError.  It is still just "not the envelope".
+    with contextlib.suppress(ValueError, RecursionError):
         payload = json.loads(content)
     if isinstance(payload, dict):
         raw_reason = str(payload.get("reason", ""))
